@@ -143,10 +143,33 @@ pub fn check_poetic(rec: &J) -> Verdict {
 }
 
 /// Family `fault` (C13): the text must be rejected, and the error must name the line of the fault.
+/// The entry point the command-line tool uses for all three sub-commands must give the text the same verdict, with the same
+/// line in its message, as the parser itself.
+fn cli_layer_disagrees(text: &str, front: &Result<String, String>) -> Option<String> {
+    let line_of = |m: &str| m.find("(line ").and_then(|i| m[i + 6..].split(')').next().and_then(|n| n.parse::<u64>().ok()));
+    let cli = match catch_unwind(AssertUnwindSafe(|| rrss::cli::parser::parse(text).map(|p| format!("{:?}", p)).map_err(|e| e.to_string()))) {
+        Ok(r) => r,
+        Err(p) => return Some(format!("cli::parser::parse panicked: {}", panic_msg(p))),
+    };
+    match (front, &cli) {
+        (Ok(a), Ok(b)) if a == b => None,
+        (Ok(_), Ok(_)) => Some("cli::parser::parse returns a different tree than the parser".into()),
+        (Err(a), Err(b)) if line_of(a) == line_of(b) => None,
+        (Err(a), Err(b)) => Some(format!("the parser says `{}` but cli::parser::parse says `{}`", a, b)),
+        (Ok(_), Err(b)) => Some(format!("the parser accepts the text but cli::parser::parse says `{}`", b)),
+        (Err(a), Ok(_)) => Some(format!("the parser says `{}` but cli::parser::parse accepts the text", a)),
+    }
+}
+
 pub fn check_fault(rec: &J) -> Verdict {
     let text = concretise_src(rec["text"].as_str().unwrap());
     let want = rec["line"].as_u64().unwrap();
     let r = catch_unwind(AssertUnwindSafe(|| rrss::frontend::parser::parse(&text).map(|p| format!("{:?}", p)).map_err(|e| e.to_string())));
+    if let Ok(front) = &r {
+        if let Some(m) = cli_layer_disagrees(&text, front) {
+            return Verdict::viol(m, J::Null);
+        }
+    }
     match r {
         Err(p) => Verdict::viol(format!("parser panicked: {}", panic_msg(p)), J::Null),
         Ok(Ok(tree)) => Verdict::viol("a program with a syntax fault is accepted".into(), json!({"tree": tree.chars().take(400).collect::<String>()})),
@@ -199,7 +222,8 @@ pub fn check_e2e(rec: &J) -> Verdict {
             return Verdict::viol(format!("{} read calls issued, model {}", reads, rec["rd"]), J::Null);
         }
         let evs: Vec<J> = obs.log.iter().filter_map(|e| match e { Ev::Stmt(s) => Some(ex::stmt_json(s)), _ => None }).collect();
-        let exp = rec["evs"].as_array().unwrap();
+        let empty = Vec::new();
+        let exp = if rec["noevs"] == true { &empty } else { rec["evs"].as_array().unwrap() };
         if exp.len() != evs.len() {
             return Verdict::viol(format!("{} statements completed, model completes {}", evs.len(), exp.len()), J::Null);
         }
